@@ -385,8 +385,16 @@ def replay_terms(d, name, picked):
     return rows
 
 
-def judge_chunk(d, rows, tag):
-    """TLC pass 2 on one chunk.  Returns (violations [(invariant, row)], drift [(class, row)], records judged)."""
+def pid_of(inv, row):
+    pid = VERDICTS[inv][0]
+    if inv == "FrontDoesNotCrash" and row["case"]["ty"]["k"] != "error":
+        pid = "C03"
+    return pid
+
+
+def judge_chunk(d, rows, tag, only=None):
+    """TLC pass 2 on one chunk.  Returns (violations [(invariant, row)], drift [(class, row)], records judged).
+    Each violation costs one TLC run: at most MAX_REPORTS of the caller's properties, 4 * MAX_REPORTS in all."""
     viols, drift, judged = [], [], 0
     rows = list(rows)
     while rows:
@@ -399,7 +407,8 @@ def judge_chunk(d, rows, tag):
                 tool_failure(f"TypeRulesTrace: cannot locate the violating record ({v.violated})")
             viols.append((v.violated, rows[l - 1]))
             judged += v.distinct
-            if len(viols) >= MAX_REPORTS:
+            mine = [x for x in viols if only is None or pid_of(*x) in only]
+            if len(mine) >= MAX_REPORTS or len(viols) >= 4 * MAX_REPORTS:
                 break
             rows = rows[:l - 1] + rows[l:]          # judge the remaining records as well
             continue
@@ -433,15 +442,17 @@ def python_expectation_disagrees(r):
     return False
 
 
-def report(viols):
+def report(viols, only=None):
     fails = {}
     # the most specific first; at most MAX_REPORTS reports in all
+    for inv, r in viols:
+        if only is not None and pid_of(inv, r) not in only:
+            log(f"(a violation of {pid_of(inv, r)} on `{rend(r['case']['term'])}` is left to ./check {pid_of(inv, r)})")
+    viols = [v for v in viols if only is None or pid_of(*v) in only]
     viols = sorted(viols, key=lambda v: (list(VERDICTS).index(v[0]), v[1]["case"]["size"], v[1]["case"]["key"]))[:MAX_REPORTS]
     for inv, r in viols:
         c, o = r["case"], r["obs"]
-        pid, expected = VERDICTS[inv]
-        if inv == "FrontDoesNotCrash" and c["ty"]["k"] != "error":
-            pid = "C03"
+        pid, expected = pid_of(inv, r), VERDICTS[inv][1]
         case = {"term": c["term"], "term_text": rend(c["term"]), "universe": c["u"], "program": r["program"],
                 "spec_verdict": c["ty"], "spec_outcome": c["out"], "builds": [f"opt:{b}" for b in BUILDS]}
         known = [k for k in known_findings(pid) if isinstance(k.get("witness"), dict) and k["witness"].get("term_text") == case["term_text"]]
@@ -460,8 +471,8 @@ def report(viols):
     return fails
 
 
-def run_typerules(tier, d, stats):
-    """returns (number of violations, coverage dict)"""
+def run_typerules(tier, d, stats, only=None):
+    """returns (number of violations, coverage dict); `only`: the property ids this caller reports (None = all)"""
     t0 = time.time()
     build_harness()
     stats.update({"states": 0, "transitions": 0})
@@ -482,7 +493,7 @@ def run_typerules(tier, d, stats):
     t2 = time.time()
     chunks = [(i // CHUNK, rows[i:i + CHUNK]) for i in range(0, len(rows), CHUNK)]
     with ThreadPoolExecutor(max_workers=PARALLEL_TLC) as ex:
-        results = list(ex.map(lambda c: judge_chunk(d, c[1], str(c[0])), chunks))
+        results = list(ex.map(lambda c: judge_chunk(d, c[1], str(c[0]), only), chunks))
     viols = [v for r in results for v in r[0]]
     drift = [x for r in results for x in r[1]]
     judged = sum(r[2] for r in results)
@@ -491,7 +502,7 @@ def run_typerules(tier, d, stats):
     if bool(pyd) != bool([v for v in viols if v[0] != "SoundHere"]):
         tool_failure(f"pass-1 expectations and pass-2 verdict are inconsistent ({len(pyd)} mismatches vs {len(viols)} violations); "
                      f"first: {[(rend(r['case']['term']), r['case']['ty'], r['obs']['front']) for r in pyd[:1]]}")
-    fails = report(viols)
+    fails = report(viols, only)
     drift_classes = {}
     for cls, r in drift:
         key = cls if cls != "over-rejection" else cls
